@@ -10,6 +10,9 @@ def run(prop, tier):
     out = Outcome(prop, tier)
     rnd = random.Random(seed() * 7919 + int(prop[1:]))
     items = camx.emit_layouts(out, tier, prop)
+    # the meteorological formats (one3d, humidity, vertical diffusivity,
+    # temperature, height/pressure)
+    items += camx.emit_layouts(out, tier, prop + ' met formats', family='met')
     out.cov['configurations_emitted'] = len(items)
     traces = []
     if prop in ('C09', 'C13'):
